@@ -684,6 +684,74 @@ class Case:
             self.viol("membership:refusals_changed_file:%s.%s" % (x["entity"].split(":")[0], x.get("field") or x.get("change")), {"diff": x})
 
     # ---- driver ---------------------------------------------------------------------------------------------
+    def relink_after_copy(self, st):
+        """A tag / group copied into another block brings private duplicates of what it linked (same ids).  Appending the
+        destination block's own entity of that id (its kept-id copy of the array) must make the list entry an ALIAS of that
+        entity; likewise a fixed-name link (metadata) re-pointed to a same-id copy of its old target."""
+        nix, np, rng, ctx = self.nix, self.np, self.rng, self.ctx
+        f = st["f"]
+        A, B = f.create_block("cpA", "t"), f.create_block("cpB", "t")
+        sig = A.create_data_array("sig", "t", data=np.arange(5.0), label="orig")
+        holder_kind = rng.choice(["tag", "multi_tag", "group"])
+        if holder_kind == "tag":
+            h = A.create_tag("holder", "t", [0.0])
+            h.references.append(sig)
+            hB = B.create_tag(copy_from=h)
+            lst = lambda x: x.references      # noqa
+        elif holder_kind == "multi_tag":
+            pos = A.create_data_array("pos", "t", data=np.zeros((2, 1)))
+            h = A.create_multi_tag("holder", "t", pos)
+            h.references.append(sig)
+            hB = B.create_multi_tag(copy_from=h)
+            lst = lambda x: x.references      # noqa
+        else:
+            h = A.create_group("holder", "t")
+            h.data_arrays.append(sig)
+            hB = None
+            lst = lambda x: x.data_arrays      # noqa
+        sigB = B.create_data_array(copy_from=sig)
+        if hB is None:
+            hB = B.create_group("holder", "t")          # groups cannot be copied through the API: link the copy's array twice instead
+            lst(hB).append(sigB)
+        lst(hB).append(sigB)
+        sec = f.create_section("cp_meta", "t")
+        sec2 = f.copy_section(sec, name="cp_meta_copy")
+        sigB.metadata = sec
+        sigB.metadata = sec2
+        info = dict(self.rep, part="relink_after_copy", holder=holder_kind)
+        ctx.count("relink_after_copy_cases")
+
+        def check(when, ff):
+            Bb = ff.blocks["cpB"]
+            hb = {"tag": Bb.tags, "multi_tag": Bb.multi_tags, "group": Bb.groups}[holder_kind]["holder"]
+            via_list = [x for x in lst(hb) if x.name == "sig"]
+            own = Bb.data_arrays["sig"]
+            if len(via_list) != 1:
+                self.viol("relink_after_copy:list_has_%d_entries_for_one_id:%s" % (len(via_list), holder_kind), dict(info, when=when))
+                return
+            got = (via_list[0].label, [float(x) for x in via_list[0][:]])
+            want = (own.label, [float(x) for x in own[:]])
+            ctx.count("relink_after_copy_reads")
+            if got != want:
+                self.viol("relink_after_copy:list_entry_is_not_an_alias:%s:%s" % (holder_kind, when), dict(info, through_block=want, through_list=got))
+            md = own.metadata
+            if md is None or md.name != "cp_meta_copy":
+                self.viol("relink_after_copy:metadata_not_repointed:%s" % when, dict(info, got=None if md is None else md.name))
+        check("after_append", f)
+        B.data_arrays["sig"].label = "changed through the block"
+        B.data_arrays["sig"][0] = 77.0
+        check("after_mutation_through_block", f)
+        hb = {"tag": B.tags, "multi_tag": B.multi_tags, "group": B.groups}[holder_kind]["holder"]
+        ent = [x for x in lst(hb) if x.name == "sig"][0]
+        ent.label = "changed through the list"
+        ent[1] = 88.0
+        check("after_mutation_through_list", f)
+        f.close()
+        st["f"] = nix.File.open(self.path, nix.FileMode.ReadOnly)
+        check("after_reopen", st["f"])
+        st["f"].close()
+        st["f"] = nix.File.open(self.path, nix.FileMode.ReadWrite)
+
     def run(self):
         nix, rng = self.nix, self.rng
         from .. import clock
@@ -703,6 +771,8 @@ class Case:
                 self.dimension_links(st["f"])
             if part in ("membership", "both"):
                 self.membership(st["f"])
+            if rng.random() < 0.35:
+                self.relink_after_copy(st)
         finally:
             try:
                 st["f"].close()
